@@ -21,7 +21,7 @@ CFG = dict(
     rule="seeded generator of validator life cycles (operators incl. the own key, add own / foreign validators, decided history, metadata, liquidate, reactivate, exit, remove, re-add, "
          "fee recipients, malformed adds) cut into blocks; for every block every real database write (incl. the slashing-protection writes inside key-manager calls) is used once as a crash "
          "point and once as an error point, every key-manager call once as an error point; each fault run: blocks before, faulted block, new process on the surviving database, resume from "
-         "marker+1 to the end, compared with the uninterrupted real run and with the model; plus one in-process retry per block (measurement); every 8th case is a LARGE block (130-400 cheap events: fee recipients, ValidatorAdded attempts that only bump the nonce, unknown topics) with crash/error points drawn over all its writes (first ones, around every 128th, random, last, marker write, commit). A case class is distinct per "
+         "marker+1 to the end, compared with the uninterrupted real run and with the model; plus one in-process retry per block (measurement); empty (progress-only) blocks above / equal to / below the marker, followed - sometimes after a restart - by re-delivery of already processed blocks (all must be refused; marker never goes back); every 8th case is a LARGE block (130-400 cheap events: fee recipients, ValidatorAdded attempts that only bump the nonce, unknown topics) with crash/error points drawn over all its writes (first ones, around every 128th, random, last, marker write, commit). A case class is distinct per "
          "(fault kind, write kind hit, previous write kind) and per (block status, outcome string, write trace)",
     trusted_base=["fault-injecting basedb.Database / Txn / KeyManager wrappers and the mapping of raw database keys to the model's write kinds",
                   "Badger: a transaction is atomic and durable at Commit; uncommitted transaction writes vanish with the process",
